@@ -4,15 +4,21 @@ Proved: `place_and_orient_model3d` maps every model vertex `v` to `(R·v·scale 
 object's pose at the displayed path index followed by the announced unit factor, and a local
 vertex on the body's surface lands on the posed surface; the unit factor table regenerated from
 `_UNIT_PREFIX`/`get_unit_factor` satisfies factor · 10^power = 1 for every prefix.
-/- FULL: also the local model generators (make_Cuboid … make_Sensor), trace grouping/merging, frame
-   selection and the plotly/matplotlib glue, and that show() modifies nothing.  Those are exercised
-   by the display oracle: figure traces from show(..., backend='plotly', return_fig=True) are mapped
-   back through the inverse pose and compared with the object's geometry; snapshots before/after. -/
+Also proved (Model/Display.lean, tied to the code by the `disp` correspondence stream): which path
+indices `get_rot_pos_from_path` displays (`frames_*`), the local Cuboid model (`cuboid_*`: vertices
+are the 8 corners, triangles lie in the faces, cover them, closed and outward-wound), the
+Tetrahedron model (`tetra_*`), and the index structure / closedness of `make_Prism`, `make_Pyramid`.
+/- FULL: also the remaining local model generators (vertex coordinates of Prism / Pyramid / Ellipsoid /
+   CylinderSegment / Arrow, make_Sensor …), trace grouping/merging and the plotly/matplotlib glue, and
+   that show() modifies nothing.  Those are exercised by the display oracle: figure traces from
+   show(..., backend='plotly', return_fig=True) are mapped back through the inverse pose and compared
+   with the object's geometry; snapshots before/after. -/
 -/
 import Mathlib.Algebra.GroupWithZero.Action.Defs
 import Mathlib.Algebra.Module.Basic
 import Mathlib.Tactic
 import MagpyVerif.Gen.Units
+import MagpyVerif.Lemmas.Display
 namespace MagpyVerif.C19
 open MagpyVerif.Gen
 
@@ -45,5 +51,472 @@ theorem unit_factor_table : Units.table.all (fun r => r.2.2 == -r.1) = true := b
   decide
 
 theorem unit_table_complete : Units.table.length = 18 := by decide
+
+/-! ## Which path indices are displayed: `get_rot_pos_from_path` (Model/Display.lean `getRotPosInds`)
+
+`inds` is the array the function returns, `rows` the path rows `orient[inds]`, `pos[inds]` select
+(the path indices at which a copy of the object is drawn).  `n` is the path length. -/
+
+open MagpyVerif.Display
+
+/-- Whenever `get_rot_pos_from_path` returns (any path length, any `show_path`): the returned
+index array is strictly increasing (so it has no duplicates), non-empty, every entry is a valid
+numpy index `-n ≤ i < n` (in particular `< path_len`: indices beyond the path were clipped), the
+selected rows are those indices with negative ones counted from the end, and every selected row
+is a row of the path (`< n`): the object is drawn only at poses it really has. -/
+theorem frames_indices_valid (n : Nat) (sp : ShowPath) (inds : List Int) (rows : List Nat)
+    (h : getRotPosInds n sp = .ok (inds, rows)) :
+    inds.Pairwise (· < ·) ∧ inds ≠ [] ∧ (∀ i ∈ inds, -(n : Int) ≤ i ∧ i < n) ∧
+      rows = inds.map (normIdx n) ∧ rows ≠ [] ∧ ∀ r ∈ rows, r < n := by
+  rw [getRotPosInds_unfold] at h
+  cases hraw : rawInds n sp with
+  | error e => rw [hraw] at h; simp at h
+  | ok raw =>
+    rw [hraw] at h
+    simp only at h
+    have hb : ∀ i ∈ finalInds n raw, -(n : Int) ≤ i ∧ i < n := by
+      by_contra hc
+      push Not at hc
+      obtain ⟨i, hi, hi'⟩ := hc
+      have : takeInds n (finalInds n raw) = .error .indexError :=
+        takeInds_error ⟨i, hi, by by_cases h1 : -(n : Int) ≤ i <;> [exact Or.inr (hi' h1); exact Or.inl (by omega)]⟩
+      rw [this] at h
+      simp at h
+    rw [takeInds_ok hb] at h
+    simp only [Except.ok.injEq, Prod.mk.injEq] at h
+    obtain ⟨rfl, rfl⟩ := h
+    refine ⟨pairwise_finalInds n raw, finalInds_ne_nil n raw, hb, rfl, ?_, ?_⟩
+    · simpa using finalInds_ne_nil n raw
+    · intro r hr
+      obtain ⟨i, hi, rfl⟩ := List.mem_map.1 hr
+      exact normIdx_lt (hb i hi).1 (hb i hi).2
+
+example : getRotPosInds 6 (.list [1, 2, 8]) = .ok ([1, 2, 5], [1, 2, 5]) := by decide
+example : getRotPosInds 5 (.list [9, -1, 0, 0]) = .ok ([-1, 0, 4], [4, 0, 4]) := by decide
+
+/-- When does displaying fail because of `show_path`?  Exactly when `show_path` is none of
+None / bool / int / iterable (and not `== 0`): ValueError; or when it is an iterable containing an
+index below `-path_len`: IndexError from `orient[inds]` (indices `≥ path_len` never fail, they are
+clipped to the last row). -/
+theorem frames_error_iff (n : Nat) (hn : 0 < n) (sp : ShowPath) (e : Err) :
+    getRotPosInds n sp = .error e ↔
+      (sp = .other ∧ e = .valueError) ∨ (∃ l, sp = .list l ∧ (∃ i ∈ l, i < -(n : Int)) ∧ e = .indexError) := by
+  by_cases hl : ∃ l, sp = .list l
+  · obtain ⟨l, rfl⟩ := hl
+    by_cases hlow : ∃ i ∈ l, i < -(n : Int)
+    · rw [getRotPosInds_err_of (raw := l) rfl hlow]
+      constructor
+      · intro h
+        injection h with h
+        exact Or.inr ⟨l, rfl, hlow, h.symm⟩
+      · rintro (⟨h, _⟩ | ⟨_, _, _, rfl⟩)
+        · simp at h
+        · rfl
+    · push Not at hlow
+      rw [getRotPosInds_ok_of hn (raw := l) rfl hlow]
+      constructor
+      · intro h; simp at h
+      · rintro (⟨h, _⟩ | ⟨l', h, ⟨i, hi, hi'⟩, _⟩)
+        · simp at h
+        · injection h with h
+          subst h
+          exact absurd hi' (not_lt.2 (hlow i hi))
+  · push Not at hl
+    cases hraw : rawInds n sp with
+    | error e' =>
+      have hsp : sp = .other := by
+        cases sp <;> simp [rawInds] at hraw
+        · split at hraw <;> simp at hraw
+        · rfl
+      subst hsp
+      have : getRotPosInds n .other = .error .valueError := rfl
+      rw [this]
+      constructor
+      · intro h
+        injection h with h
+        exact Or.inl ⟨rfl, h.symm⟩
+      · rintro (⟨_, rfl⟩ | ⟨l, h, _⟩)
+        · rfl
+        · simp at h
+    | ok raw =>
+      rw [getRotPosInds_ok_of hn hraw (rawInds_lower_of_not_list hn hraw hl)]
+      constructor
+      · intro h; simp at h
+      · rintro (⟨rfl, _⟩ | ⟨l, h, _⟩)
+        · simp [rawInds] at hraw
+        · exact absurd h (hl l)
+
+example : getRotPosInds 3 (.list [0, -4]) = .error .indexError := by decide
+example : getRotPosInds 3 (.list [0, 7]) = .ok ([0, 2], [0, 2]) := by decide
+
+/-- `show_path` a non-empty iterable `L` of indices none of which is below `-path_len`: the
+returned array is exactly the sorted, de-duplicated set `{ min(i, path_len-1) : i ∈ L }` — entries
+beyond the path are clipped to the last row, negative entries are passed through unchanged (numpy
+then counts them from the end when the rows are selected). -/
+theorem frames_list_sorted_dedup_clipped (n : Nat) (hn : 0 < n) (l : List Int) (hne : l ≠ [])
+    (hlow : ∀ i ∈ l, -(n : Int) ≤ i) :
+    getRotPosInds n (.list l) =
+      .ok ((l.map (fun i => min i ((n : Int) - 1))).toFinset.sort (· ≤ ·),
+           ((l.map (fun i => min i ((n : Int) - 1))).toFinset.sort (· ≤ ·)).map (normIdx n)) := by
+  rw [getRotPosInds_ok_of hn (raw := l) rfl hlow, finalInds_of_ne_nil hne, unique_eq_sort,
+    clipInds_eq_map_min]
+
+example : getRotPosInds 4 (.list [3, 9, -2, 3]) = .ok ([-2, 3], [2, 3]) := by decide
+
+/-- The last path position (the object's current pose) is always among the displayed rows when
+`show_path` is None, True, False, 0, a positive step `k` (rows `n-1, n-1-k, n-1-2k, …`) or an
+empty iterable.
+/- FULL: "always contains path_len − 1" for every show_path.  False of the code for non-empty
+   iterables (`frames_list_may_omit_last`) and for negative integer steps
+   (`frames_negative_step_omits_last`, rows `0, |k|, 2|k|, …` counted from the start). -/ -/
+theorem frames_contains_last_partial (n : Nat) (hn : 0 < n) (sp : ShowPath)
+    (hsp : sp = .none ∨ (∃ b, sp = .bool b) ∨ (∃ k : Int, 0 ≤ k ∧ sp = .int k) ∨ sp = .list []) :
+    ∃ inds rows, getRotPosInds n sp = .ok (inds, rows) ∧ n - 1 ∈ rows := by
+  have base : ∀ sp', rawInds n sp' = .ok [-1] → ∃ inds rows, getRotPosInds n sp' = .ok (inds, rows) ∧ n - 1 ∈ rows := by
+    intro sp' h
+    refine ⟨_, _, getRotPosInds_ok_of hn h (by intro i hi; simp at hi; omega), ?_⟩
+    rw [finalInds_neg_one hn]
+    simp [normIdx_neg_one hn]
+  rcases hsp with rfl | ⟨b, rfl⟩ | ⟨k, hk, rfl⟩ | rfl
+  · exact base _ rfl
+  · exact base _ rfl
+  · by_cases hk0 : k = 0
+    · subst hk0
+      exact base _ rfl
+    · have hraw : rawInds n (.int k) = .ok (arangeSlice n (-k)) := by simp [rawInds, hk0]
+      refine ⟨_, _, getRotPosInds_ok_of hn hraw (rawInds_lower_of_not_list hn hraw (by simp)), ?_⟩
+      rw [finalInds_arange hn (by omega), List.mem_map]
+      refine ⟨(n : Int) - 1, mem_unique.2 ((mem_arangeSlice_neg hn (by omega)).2 ⟨0, by simp, by simpa using hn⟩), ?_⟩
+      rw [normIdx_of_nonneg (by omega)]
+      omega
+  · refine ⟨_, _, getRotPosInds_ok_of hn (raw := []) rfl (by simp), ?_⟩
+    rw [finalInds_nil]
+    simp [normIdx_of_nonneg (show (0 : Int) ≤ (n : Int) - 1 by omega)]
+
+example : getRotPosInds 7 (.int 3) = .ok ([0, 3, 6], [0, 3, 6]) := by decide
+example : getRotPosInds 7 .none = .ok ([-1], [6]) := by decide
+
+/-- the exclusions in `frames_contains_last_partial` are necessary: a list shows exactly the rows it
+names, and a negative step counts from the first row -/
+theorem frames_list_may_omit_last : displayedIndices 3 (.list [0]) = .ok [0] := by decide
+theorem frames_negative_step_omits_last : displayedIndices 4 (.int (-2)) = .ok [0, 2] := by decide
+
+/-- Integer step `k ≠ 0` (`np.arange(path_len)[::-k]`): for `k > 0` exactly the rows `r < n` with
+`k ∣ n-1-r` are displayed (every k-th position counted back from the last), for `k < 0` exactly the
+rows with `|k| ∣ r` (every |k|-th position counted from the first); the returned array holds the
+same numbers, in increasing order. -/
+theorem frames_step (n : Nat) (hn : 0 < n) (k : Int) (hk : k ≠ 0) :
+    ∃ inds : List Int, getRotPosInds n (.int k) = .ok (inds, inds.map Int.toNat) ∧
+      (∀ i ∈ inds, 0 ≤ i) ∧
+      ∀ r : Nat, r ∈ inds.map Int.toNat ↔
+        r < n ∧ (if 0 < k then k.natAbs ∣ n - 1 - r else k.natAbs ∣ r) := by
+  have hraw : rawInds n (.int k) = .ok (arangeSlice n (-k)) := by simp [rawInds, hk]
+  have hnonneg : ∀ i ∈ unique (arangeSlice n (-k)), 0 ≤ i := fun i hi =>
+    (arangeSlice_range (step := -k) (by omega) (mem_unique.1 hi)).1
+  refine ⟨unique (arangeSlice n (-k)), ?_, hnonneg, ?_⟩
+  · rw [getRotPosInds_ok_of hn hraw (rawInds_lower_of_not_list hn hraw (by simp)),
+      finalInds_arange hn (by omega)]
+    congr 2
+    apply List.map_congr_left
+    intro i hi
+    exact normIdx_of_nonneg (hnonneg i hi)
+  · intro r
+    rw [List.mem_map]
+    have habs : (-k).natAbs = k.natAbs := Int.natAbs_neg k
+    split
+    · rename_i hpos
+      constructor
+      · rintro ⟨i, hi, rfl⟩
+        obtain ⟨q, rfl, hq⟩ := (mem_arangeSlice_neg hn (by omega)).1 (mem_unique.1 hi)
+        rw [habs] at hq ⊢
+        have hcast : (((n : Int) - 1 - (q : Int) * (k.natAbs : Int)).toNat) = n - 1 - q * k.natAbs := by
+          have : ((q * k.natAbs : Nat) : Int) = (q : Int) * (k.natAbs : Int) := by push_cast; ring
+          omega
+        rw [hcast]
+        refine ⟨by omega, ⟨q, ?_⟩⟩
+        have : n - 1 - (n - 1 - q * k.natAbs) = q * k.natAbs := by omega
+        rw [this, Nat.mul_comm]
+      · rintro ⟨hr, ⟨q, hq⟩⟩
+        refine ⟨(n : Int) - 1 - (q : Int) * (k.natAbs : Int), mem_unique.2 ((mem_arangeSlice_neg hn (by omega)).2 ⟨q, by rw [habs], ?_⟩), ?_⟩
+        · rw [habs]
+          have : q * k.natAbs = n - 1 - r := by rw [hq, Nat.mul_comm]
+          omega
+        · have : ((q * k.natAbs : Nat) : Int) = (q : Int) * (k.natAbs : Int) := by push_cast; ring
+          have h2 : q * k.natAbs = n - 1 - r := by rw [hq, Nat.mul_comm]
+          omega
+    · rename_i hneg
+      have hkneg : k < 0 := by omega
+      constructor
+      · rintro ⟨i, hi, rfl⟩
+        obtain ⟨q, rfl, hq⟩ := (mem_arangeSlice_pos hn (by omega)).1 (mem_unique.1 hi)
+        rw [habs] at hq ⊢
+        have hcast : (((q : Int) * (k.natAbs : Int)).toNat) = q * k.natAbs := by
+          have : ((q * k.natAbs : Nat) : Int) = (q : Int) * (k.natAbs : Int) := by push_cast; ring
+          omega
+        rw [hcast]
+        exact ⟨hq, ⟨q, Nat.mul_comm _ _⟩⟩
+      · rintro ⟨hr, ⟨q, hq⟩⟩
+        refine ⟨(q : Int) * (k.natAbs : Int), mem_unique.2 ((mem_arangeSlice_pos hn (by omega)).2 ⟨q, by rw [habs], ?_⟩), ?_⟩
+        · rw [habs, Nat.mul_comm, ← hq]
+          exact hr
+        · have : ((q * k.natAbs : Nat) : Int) = (q : Int) * (k.natAbs : Int) := by push_cast; ring
+          have h2 : q * k.natAbs = r := by rw [hq, Nat.mul_comm]
+          omega
+
+example : getRotPosInds 8 (.int 3) = .ok ([1, 4, 7], [1, 4, 7]) := by decide
+example : getRotPosInds 8 (.int (-3)) = .ok ([0, 3, 6], [0, 3, 6]) := by decide
+
+/-- No path row is drawn twice (the selected rows are strictly increasing) unless `show_path` is an
+iterable mixing negative and non-negative indices.
+/- FULL: the selected rows are strictly increasing for every show_path.  False of the code:
+   `frames_row_drawn_twice_witness` — `np.unique` runs before negative indices are resolved, so
+   `[-1, n-1]` names the last row twice and the object is drawn there twice. -/ -/
+theorem frames_rows_strictly_increasing_partial (n : Nat) (hn : 0 < n) (sp : ShowPath)
+    (hsp : ∀ l, sp = .list l → (∀ i ∈ l, 0 ≤ i) ∨ (∀ i ∈ l, i < 0))
+    (inds : List Int) (rows : List Nat) (h : getRotPosInds n sp = .ok (inds, rows)) :
+    rows.Pairwise (· < ·) := by
+  obtain ⟨hp, _, hb, rfl, _, _⟩ := frames_indices_valid n sp inds rows h
+  apply pairwise_map_normIdx hp hb
+  -- the sign condition on the returned array
+  rw [getRotPosInds_unfold] at h
+  cases hraw : rawInds n sp with
+  | error e => rw [hraw] at h; simp at h
+  | ok raw =>
+    rw [hraw] at h
+    simp only at h
+    cases ht : takeInds n (finalInds n raw) with
+    | error e => rw [ht] at h; simp at h
+    | ok rows' =>
+      rw [ht] at h
+      simp only [Except.ok.injEq, Prod.mk.injEq] at h
+      obtain ⟨rfl, _⟩ := h
+      have hsign : (∀ i ∈ raw, 0 ≤ i) ∨ (∀ i ∈ raw, i < 0) := by
+        cases sp with
+        | none => simp [rawInds] at hraw; subst hraw; right; simp
+        | bool b => simp [rawInds] at hraw; subst hraw; right; simp
+        | int k =>
+          by_cases hk : k = 0
+          · simp [rawInds, hk] at hraw; subst hraw; right; simp
+          · simp [rawInds, hk] at hraw
+            subst hraw
+            left
+            intro i hi
+            exact (arangeSlice_range (step := -k) (by omega) hi).1
+        | list l => simp [rawInds] at hraw; subst hraw; exact hsp l rfl
+        | other => simp [rawInds] at hraw
+      by_cases hr : raw = []
+      · subst hr
+        left
+        intro i hi
+        rw [finalInds_nil] at hi
+        simp at hi
+        omega
+      · rcases hsign with hs | hs
+        · left
+          intro i hi
+          obtain ⟨j, hj, rfl⟩ := (mem_finalInds_of_ne_nil hr).1 hi
+          have := hs j hj
+          omega
+        · right
+          intro i hi
+          obtain ⟨j, hj, rfl⟩ := (mem_finalInds_of_ne_nil hr).1 hi
+          have := hs j hj
+          omega
+
+example : getRotPosInds 5 (.list [4, 0, 2, 4]) = .ok ([0, 2, 4], [0, 2, 4]) := by decide
+
+/-- the exclusion in `frames_rows_strictly_increasing_partial` is necessary -/
+theorem frames_row_drawn_twice_witness : getRotPosInds 3 (.list [-1, 2]) = .ok ([-1, 2], [2, 2]) := by
+  decide
+
+/-! ## Local model of a Cuboid: `make_Cuboid` (Model/Display.lean)
+
+Coordinates are DOUBLED (`cuboidVerts2` = 2·vertex, `posOff pos` = 2·position) so that `±dimension/2`
+becomes `±dimension` in ℤ.  `coord a` is the x / y / z component, `sgn a idx` the literal sign of
+model vertex `idx` along axis `a`, `triInFace a sg t` says that the three vertices of `t` all have sign
+`sg` along axis `a`. -/
+
+open MagpyVerif.Mesh (openEdges verts)
+
+/-- `make_Cuboid(dimension, position)`:
+(1) there are 8 vertices and vertex `idx` sits at `position + sgn·dimension/2` in every coordinate,
+    so every coordinate of every vertex is `±dimension/2` away from the position: each vertex is a
+    corner of the box, in particular on its surface;
+(2) all 8 corners occur: the drawn vertices span the full extent of the magnet;
+(3) every one of the 12 triangles lies within one face of the box (its three vertices share the
+    coordinate `position ± dimension/2` along one axis);
+(4) each of the 6 faces contains exactly two of the triangles and these two cover all 4 corners of
+    the face;
+(5) every triangle has three distinct vertex indices, all `< 8`. -/
+theorem cuboid_vertices_on_surface_and_span (dim : I3) (pos : Option I3) :
+    (cuboidVerts2 dim pos).length = 8 ∧
+    (∀ idx < 8, ∃ v, (cuboidVerts2 dim pos)[idx]? = some v ∧ ∀ a : Fin 3,
+        coord a v = coord a (posOff pos) + sgn a idx * coord a dim ∧ (sgn a idx = 1 ∨ sgn a idx = -1)) ∧
+    (∀ v ∈ cuboidVerts2 dim pos, ∀ a : Fin 3,
+        coord a v - coord a (posOff pos) = coord a dim ∨ coord a v - coord a (posOff pos) = -coord a dim) ∧
+    (∀ sx ∈ [(1 : Int), -1], ∀ sy ∈ [(1 : Int), -1], ∀ sz ∈ [(1 : Int), -1],
+        ((posOff pos).1 + sx * dim.1, (posOff pos).2.1 + sy * dim.2.1, (posOff pos).2.2 + sz * dim.2.2)
+          ∈ cuboidVerts2 dim pos) ∧
+    (∀ t ∈ cuboidTriangles, ∃ a : Fin 3, ∃ sg ∈ [(1 : Int), -1], triInFace a sg t = true ∧
+        ∀ idx ∈ verts t, ∃ v, (cuboidVerts2 dim pos)[idx]? = some v ∧
+          coord a v = coord a (posOff pos) + sg * coord a dim) ∧
+    (∀ a : Fin 3, ∀ sg ∈ [(1 : Int), -1],
+        (cuboidTriangles.filter (triInFace a sg)).length = 2 ∧
+        ∀ idx < 8, sgn a idx = sg → idx ∈ (cuboidTriangles.filter (triInFace a sg)).flatMap verts) ∧
+    (∀ t ∈ cuboidTriangles, t.1 ≠ t.2.1 ∧ t.2.1 ≠ t.2.2 ∧ t.1 ≠ t.2.2 ∧ t.1 < 8 ∧ t.2.1 < 8 ∧ t.2.2 < 8) := by
+  have hsgn : ∀ idx < 8, ∀ a : Fin 3, sgn a idx = 1 ∨ sgn a idx = -1 := by decide
+  have hlen : (cuboidVerts2 dim pos).length = 8 := by rw [cuboidVerts2_eq]; rfl
+  have hidx : ∀ t ∈ cuboidTriangles, ∀ idx ∈ verts t, idx < 8 := by decide
+  refine ⟨hlen, ?_, ?_, ?_, ?_, ?_, by decide⟩
+  · intro idx h
+    obtain ⟨v, hv, hc⟩ := cuboidVerts2_getElem dim pos idx h
+    exact ⟨v, hv, fun a => ⟨hc a, hsgn idx h a⟩⟩
+  · intro v hv a
+    obtain ⟨idx, hidx', hget⟩ := List.getElem_of_mem hv
+    rw [hlen] at hidx'
+    obtain ⟨v', hv', hc⟩ := cuboidVerts2_getElem dim pos idx hidx'
+    have : v' = v := by
+      rw [List.getElem?_eq_getElem (by rw [hlen]; exact hidx')] at hv'
+      rw [← hget]
+      exact (Option.some.inj hv').symm
+    subst this
+    rw [hc a]
+    rcases hsgn idx hidx' a with h | h <;> rw [h]
+    · left; ring
+    · right; ring
+  · rw [cuboidVerts2_eq]
+    intro sx hsx sy hsy sz hsz
+    simp only [List.mem_cons, List.not_mem_nil, or_false] at hsx hsy hsz
+    rcases hsx with rfl | rfl <;> rcases hsy with rfl | rfl <;> rcases hsz with rfl | rfl <;>
+      simp [cuboidSigns, cuboidSignX, cuboidSignY, cuboidSignZ]
+  · intro t ht
+    obtain ⟨a, sg, hsg, hin⟩ := cuboid_tri_in_some_face t ht
+    refine ⟨a, sg, hsg, hin, ?_⟩
+    intro idx hi
+    obtain ⟨v, hv, hc⟩ := cuboidVerts2_getElem dim pos idx (hidx t ht idx hi)
+    refine ⟨v, hv, ?_⟩
+    rw [hc a]
+    have : sgn a idx = sg := by
+      simp only [triInFace, Bool.and_eq_true, beq_iff_eq] at hin
+      simp only [verts, List.mem_cons, List.not_mem_nil, or_false] at hi
+      rcases hi with rfl | rfl | rfl
+      · exact hin.1.1
+      · exact hin.1.2
+      · exact hin.2
+    rw [this]
+  · intro a sg hsg
+    obtain ⟨h1, h2⟩ := cuboid_face_two_triangles a sg hsg
+    exact ⟨h1, fun idx hi => h2 idx (List.mem_range.2 hi)⟩
+
+example : cuboidVerts2 (2, 4, 6) (some (10, 20, 30)) =
+    [(18, 36, 54), (18, 44, 54), (22, 44, 54), (22, 36, 54), (18, 36, 66), (18, 44, 66), (22, 44, 66), (22, 36, 66)] := by
+  decide
+example : cuboidTriangles.filter (triInFace 2 1) = [(4, 6, 5), (4, 7, 6)] := by decide
+
+/-- the 12 index triples of `make_Cuboid` form a closed surface in the sense of
+`TriangularMesh`'s own check (`get_open_edges` of Model/Mesh.lean returns nothing): every edge is
+shared by exactly two triangles -/
+theorem cuboid_mesh_closed : openEdges cuboidTriangles = [] := by decide
+
+/-- the cuboid's triangles are consistently wound: no directed edge is used twice -/
+theorem cuboid_mesh_consistently_oriented :
+    (cuboidTriangles.flatMap fun t => [(t.1, t.2.1), (t.2.1, t.2.2), (t.2.2, t.1)]).Nodup := by decide
+
+/-- … and wound outwards: for every triangle `(i, j, k)` the normal `(v_j − v_i) × (v_k − v_i)` has
+scalar product `4·a·b·c` (doubled coordinates; = volume-positive for positive side lengths) with
+the vector from the box centre to `v_i`; in particular no triangle is geometrically degenerate
+when all side lengths are non-zero. -/
+theorem cuboid_faces_outward (dim : I3) (pos : Option I3) (h : 0 < dim.1 ∧ 0 < dim.2.1 ∧ 0 < dim.2.2) :
+    ∀ t ∈ cuboidTriangles, ∀ vi vj vk, (cuboidVerts2 dim pos)[t.1]? = some vi →
+      (cuboidVerts2 dim pos)[t.2.1]? = some vj → (cuboidVerts2 dim pos)[t.2.2]? = some vk →
+      0 < dot3 (cross3 (sub3 vj vi) (sub3 vk vi)) (sub3 vi (posOff pos)) := by
+  intro t ht vi vj vk h1 h2 h3
+  rw [cuboid_outward_identity dim pos t ht vi vj vk h1 h2 h3]
+  have := mul_pos (mul_pos h.1 h.2.1) h.2.2
+  omega
+
+example : cuboidTriangles.length = 12 ∧ (7, 0, 3) ∈ cuboidTriangles := by decide
+-- triangle (7, 0, 3) of a 1 × 2 × 3 box (doubled: 2 × 4 × 6) centred at the origin
+example : (cuboidVerts2 (2, 4, 6) none)[7]? = some (2, -4, 6) ∧ (cuboidVerts2 (2, 4, 6) none)[0]? = some (-2, -4, -6) ∧
+    (cuboidVerts2 (2, 4, 6) none)[3]? = some (2, -4, -6) ∧
+    dot3 (cross3 (sub3 (-2, -4, -6) (2, -4, 6)) (sub3 (2, -4, -6) (2, -4, 6))) (sub3 (2, -4, 6) (0, 0, 0)) = 4 * (2 * 4 * 6) := by
+  decide
+
+/-! ## Local model of a Tetrahedron: `make_Tetrahedron` with `check_chirality` -/
+
+/-- the 4 index triples of `make_Tetrahedron` form a closed surface (no open edge) -/
+theorem tetra_mesh_closed : openEdges tetraTriangles = [] := by decide
+
+/-- `make_Tetrahedron` draws the object's own four vertices (possibly with the last two exchanged by
+`check_chirality`, which makes the determinant non-negative), every triangle has three distinct
+indices `< 4`, the winding is consistent, and for every triangle `(i, j, k)` with fourth vertex `m`
+the normal `(v_j − v_i) × (v_k − v_i)` has scalar product `−|det|` with `v_m − v_i`: for a
+non-degenerate tetrahedron every face is wound with its normal pointing away from the body. -/
+theorem tetra_faces_outward (p : I3 × I3 × I3 × I3) :
+    ((tetraPoints p = [p.1, p.2.1, p.2.2.1, p.2.2.2] ∨ tetraPoints p = [p.1, p.2.1, p.2.2.2, p.2.2.1])) ∧
+    (∀ t ∈ tetraTriangles, t.1 ≠ t.2.1 ∧ t.2.1 ≠ t.2.2 ∧ t.1 ≠ t.2.2 ∧ t.1 < 4 ∧ t.2.1 < 4 ∧ t.2.2 < 4) ∧
+    (tetraTriangles.flatMap fun t => [(t.1, t.2.1), (t.2.1, t.2.2), (t.2.2, t.1)]).Nodup ∧
+    ∀ t ∈ tetraTriangles, ∀ vi vj vk vm, (tetraPoints p)[t.1]? = some vi → (tetraPoints p)[t.2.1]? = some vj →
+      (tetraPoints p)[t.2.2]? = some vk → (tetraPoints p)[6 - t.1 - t.2.1 - t.2.2]? = some vm →
+      dot3 (cross3 (sub3 vj vi) (sub3 vk vi)) (sub3 vm vi) = -|tetraDet p| := by
+  refine ⟨?_, by decide, by decide, ?_⟩
+  · obtain ⟨p0, p1, p2, p3⟩ := p
+    rw [tetraPoints_eq]
+    unfold checkChirality
+    simp only
+    split
+    · right; rfl
+    · left; rfl
+  · intro t ht vi vj vk vm h1 h2 h3 h4
+    rw [tetraPoints_eq] at h1 h2 h3 h4
+    rw [tetra_outward_identity _ _ _ _ t ht vi vj vk vm h1 h2 h3 h4, ← tetraDet_checkChirality]
+
+example : tetraPoints ((0, 0, 0), (1, 0, 0), (0, 0, 1), (0, 1, 0)) = [(0, 0, 0), (1, 0, 0), (0, 1, 0), (0, 0, 1)] := by
+  decide
+example : tetraDet ((0, 0, 0), (1, 0, 0), (0, 0, 1), (0, 1, 0)) = -1 := by decide
+
+/-! ## Index structure of `make_Prism` (Cylinder graphic, base = 50) and `make_Pyramid` (arrow heads)
+
+Vertex coordinates use sin / cos and are not modelled; the `i, j, k` arrays are.  `succMod N q` is
+`(q+1) mod N`.  Prism vertex rows: bottom ring `0..N-1`, top ring `N..2N-1`, bottom centre `2N`, top
+centre `2N+1`.  Pyramid vertex rows: base ring `0..N-1`, tip `N`. -/
+
+/-- `make_Prism(base=N)`, `N ≥ 1`: the `N`-fold slice assignments `j1[-1] = 0`, `j2[-1] = N`,
+`k2[-1] = 0` and the four concatenations produce exactly, for `q = 0..N-1`: the lower side triangles
+`(q, q+1 mod N, q+N)`, the upper side triangles `(q+N, q+1 mod N, (q+1 mod N)+N)`, the bottom cap
+`(q, 2N, q+1 mod N)` and the top cap `(q+N, (q+1 mod N)+N, 2N+1)`; for `N ≥ 2` every triangle has
+three distinct indices, all rows of the `2N+2` vertex array. -/
+theorem prism_index_structure (N : Nat) (hN : 0 < N) :
+    prismTriangles N = .ok (prismSpec N) ∧ (prismSpec N).length = 4 * N ∧
+      (2 ≤ N → ∀ t ∈ prismSpec N, t.1 ≠ t.2.1 ∧ t.2.1 ≠ t.2.2 ∧ t.1 ≠ t.2.2 ∧
+        t.1 < 2 * N + 2 ∧ t.2.1 < 2 * N + 2 ∧ t.2.2 < 2 * N + 2) := by
+  refine ⟨prismTriangles_eq hN, ?_, fun h => prismSpec_indices h⟩
+  simp [prismSpec]
+  omega
+
+example : prismTriangles 3 = .ok [(0, 1, 3), (1, 2, 4), (2, 0, 5), (3, 1, 4), (4, 2, 5), (5, 0, 3),
+    (0, 6, 1), (1, 6, 2), (2, 6, 0), (3, 4, 7), (4, 5, 7), (5, 3, 7)] := by decide
+
+/-- for EVERY base `N ≥ 3` (the Cylinder graphic uses 50) the prism's triangles form a closed
+surface: every edge is shared by exactly two triangles (`get_open_edges` finds nothing).  (For
+`N = 2` the two ring edges coincide and the statement is false; `N = 0` raises IndexError.) -/
+theorem prism_mesh_closed (N : Nat) (hN : 3 ≤ N) :
+    ∃ fs, prismTriangles N = .ok fs ∧ openEdges fs = [] :=
+  ⟨prismSpec N, prismTriangles_eq (by omega), prismSpec_closed hN⟩
+
+example : (prismTriangles 5).map openEdges = .ok [] := by decide
+example : (prismTriangles 2).map openEdges = .ok [(0, 1), (2, 3)] := by decide
+example : prismTriangles 0 = .error .indexError := by decide
+
+/-- `make_Pyramid(base=N)`, `N ≥ 1`: the triangles are exactly `(q, q+1 mod N, N)` for `q = 0..N-1`
+(the side surface of the cone; there is no base cap), and for `N ≥ 3` the open edges of this
+surface are exactly the `N` edges of the base polygon. -/
+theorem pyramid_index_structure (N : Nat) (hN : 0 < N) :
+    pyramidTriangles N = .ok (pyramidSpec N) ∧
+      (3 ≤ N → ∀ e, e ∈ openEdges (pyramidSpec N) ↔ e ∈ baseRing N) :=
+  ⟨pyramidTriangles_eq hN, fun h e => mem_openEdges_pyramidSpec h e⟩
+
+example : pyramidTriangles 4 = .ok [(0, 1, 4), (1, 2, 4), (2, 3, 4), (3, 0, 4)] := by decide
+example : baseRing 4 = [(0, 1), (1, 2), (2, 3), (0, 3)] := by decide
 
 end MagpyVerif.C19
